@@ -3,6 +3,12 @@
 mod coq;
 mod ctx;
 #[allow(dead_code)]
+mod docgen;
+#[allow(dead_code)]
+mod live;
+#[allow(dead_code)]
+mod rawcoq;
+#[allow(dead_code)]
 mod util;
 mod props {
     include!(concat!(env!("OUT_DIR"), "/props_gen.rs"));
